@@ -1,3 +1,4 @@
+import WS.Lemmas.LimitClaimed
 import WS.Lemmas.RoleGeneric
 import WS.Lemmas.ReaderRejects
 import WS.Lemmas.ReaderDecodes
@@ -133,6 +134,57 @@ theorem nextReader_over_limit_any_role (c : Conn) (hc : ReaderIdle c) (hi : Coun
     ∃ c', nextReader c = (.err .readLimit, c') ∧ c'.r.readErr = some .readLimit ∧
       c'.w.wire = c.w.wire ++ closeFrameBytes c.w (closePayload 1009 []) := by
   first | exact RoleGeneric.nextReader_over_limit_any .. | (apply RoleGeneric.nextReader_over_limit_any <;> assumption)
+
+
+open WS.Codec WS.SrcLaw WS.HdrLogic WS.ReaderDecodes WS.ReaderRejects WS.ReaderLift WS.ReaderMore WS.RoleGeneric WS.LimitClaimed
+
+/-- the limit against every length a header can CLAIM: 7-bit, 16-bit and 64-bit encodings (minimal or
+    not), any claimed length below 2^63, any running sum — including sums that leave the int64 range
+    (the Go code adds int64s; the model wraps with `wrap64`). The data frame whose claimed length takes
+    the message over the limit in the mathematical integers is refused as soon as its header has
+    arrived — nothing of the payload needs to be there: ErrReadLimit, exactly the header consumed, no
+    handler run, a 1009 close frame written. Either role, first frame or continuation. -/
+theorem limit_refuses_claimed (c : Conn) (hc : AtBoundary c) (hw : WHealthy c.w)
+    (b0 b1 : UInt8) (ext keyb rest : Bytes)
+    (hok : ¬ Violates c.r.isServer c.r.nego (!c.r.final) (parseHdr b0 b1))
+    (hdata : (parseHdr b0 b1).opcode ≤ 2)
+    (hext : ext.length = extLen (parseHdr b0 b1))
+    (hkey : keyb.length = if (parseHdr b0 b1).mask then 4 else 0)
+    (hp : c.r.buf.pending = b0 :: b1 :: (ext ++ keyb ++ rest))
+    (hL : claimed (parseHdr b0 b1) ext < 2 ^ 63)
+    (hsum : 0 ≤ c.r.length) (hsum' : c.r.length < 2 ^ 63)
+    (hlim : 0 < c.r.limit)
+    (hover : c.r.limit < sumBase c (parseHdr b0 b1) + (claimed (parseHdr b0 b1) ext : Int)) :
+    ∃ c', advanceFrame c = (.error .readLimit, c') ∧ c'.r.buf.pending = rest ∧ c'.r.hlog = c.r.hlog ∧
+      c'.w.wire = c.w.wire ++ closeFrameBytes c.w (closePayload 1009 []) ∧ c'.w.writeErr = some .closeSent := by
+  first | exact WS.LimitClaimed.limit_refuses_claimed .. | (apply WS.LimitClaimed.limit_refuses_claimed <;> assumption)
+
+/-- a 64-bit length with the top bit set is refused the same way whatever the limit (even none),
+    before the masking key is read -/
+theorem topbit_refused_claimed (c : Conn) (hc : AtBoundary c) (hw : WHealthy c.w)
+    (b0 b1 : UInt8) (ext rest : Bytes)
+    (hok : ¬ Violates c.r.isServer c.r.nego (!c.r.final) (parseHdr b0 b1))
+    (h127 : (parseHdr b0 b1).len7 = 127) (hext : ext.length = 8)
+    (hp : c.r.buf.pending = b0 :: b1 :: (ext ++ rest))
+    (hL : 2 ^ 63 ≤ beVal ext) :
+    ∃ c', advanceFrame c = (.error .readLimit, c') ∧ c'.r.buf.pending = rest ∧ c'.r.hlog = c.r.hlog ∧
+      c'.w.wire = c.w.wire ++ closeFrameBytes c.w (closePayload 1009 []) := by
+  first | exact WS.LimitClaimed.topbit_refused_claimed .. | (apply WS.LimitClaimed.topbit_refused_claimed <;> assumption)
+
+/-- API level: NextReader on an idle reader meeting such a first frame returns ErrReadLimit, latches
+    it, and the 1009 frame is on the wire -/
+theorem nextReader_over_limit_claimed (c : Conn) (hc : ReaderIdle c) (hi : CountInv c) (hw : WHealthy c.w)
+    (b0 b1 : UInt8) (ext keyb rest : Bytes)
+    (hok : ¬ Violates c.r.isServer c.r.nego false (parseHdr b0 b1))
+    (hdata : (parseHdr b0 b1).opcode = 1 ∨ (parseHdr b0 b1).opcode = 2)
+    (hext : ext.length = extLen (parseHdr b0 b1))
+    (hkey : keyb.length = if (parseHdr b0 b1).mask then 4 else 0)
+    (hp : c.r.buf.pending = b0 :: b1 :: (ext ++ keyb ++ rest))
+    (hL : claimed (parseHdr b0 b1) ext < 2 ^ 63)
+    (hlim : 0 < c.r.limit) (hover : c.r.limit < (claimed (parseHdr b0 b1) ext : Int)) :
+    ∃ c', nextReader c = (.err .readLimit, c') ∧ c'.r.readErr = some .readLimit ∧
+      c'.w.wire = c.w.wire ++ closeFrameBytes c.w (closePayload 1009 []) := by
+  first | exact WS.LimitClaimed.nextReader_over_limit_claimed .. | (apply WS.LimitClaimed.nextReader_over_limit_claimed <;> assumption)
 
 
 /-! ### non-vacuity -/
@@ -355,6 +407,105 @@ example : ∃ c', nextReader witSrvOver = (.err .readLimit, c') ∧ c'.r.readErr
 
 /-- evaluated -/
 example : (nextReader witSrvOver).2.w.wire = [0x88, 0x02, 0x03, 0xF1] := by decide +kernel
+
+/-! #### claimed lengths (`limit_refuses_claimed`, `topbit_refused_claimed`, `nextReader_over_limit_claimed`) -/
+
+/-- an idle client reader with read limit 1000; all that has arrived is the 10-byte header of a final
+    binary frame in the 64-bit length form (82 7f 00 00 01 00 00 00 00 00) claiming 2^40 bytes — four
+    header bytes are buffered, the other six are the transport's only chunk, no payload byte at all -/
+def witClaim64 : Conn :=
+  { w := { newW false 4096 false false with keys := [1, 2, 3, 4] },
+    r := { isServer := false, nego := false, limit := 1000, hlog := [.ping []],
+           buf := { size := 4096, buf := [0x82, 0x7F, 0, 0], t := { chunks := [[1, 0, 0, 0, 0, 0]] }, total := 10 } } }
+
+def witClaim64_idle : ReaderIdle witClaim64 :=
+  ⟨rfl, rfl, rfl, ⟨by decide, by decide, by decide, (by intro e h; cases h)⟩, by decide, by decide,
+    (by intro id h; cases h), (by intro id h; cases h)⟩
+def witClaim64_atBoundary : AtBoundary witClaim64 :=
+  ⟨witClaim64_idle.noErr, witClaim64_idle.rem, witClaim64_idle.wf, witClaim64_idle.size⟩
+def witClaim64_pending : witClaim64.r.buf.pending = 0x82 :: 0x7F :: ([0, 0, 1, 0, 0, 0, 0, 0] ++ [] ++ []) := by decide
+def witClaim64_claimed : claimed (parseHdr 0x82 0x7F) [0, 0, 1, 0, 0, 0, 0, 0] = 2 ^ 40 := by decide
+
+/-- non-vacuity of `limit_refuses_claimed`, instance 1: all hypotheses hold for `witClaim64`
+    (claimed 2^40 > 1000; only the header is pending, so `rest = []`) -/
+example : ∃ c', advanceFrame witClaim64 = (.error .readLimit, c') ∧ c'.r.buf.pending = [] ∧ c'.r.hlog = witClaim64.r.hlog ∧
+      c'.w.wire = witClaim64.w.wire ++ closeFrameBytes witClaim64.w (closePayload 1009 []) ∧ c'.w.writeErr = some .closeSent :=
+  limit_refuses_claimed witClaim64 witClaim64_atBoundary ⟨rfl, rfl⟩ 0x82 0x7F [0, 0, 1, 0, 0, 0, 0, 0] [] []
+    (by rw [← headerErrors_nil_iff]; decide) (by decide) (by decide) (by decide) witClaim64_pending
+    (by decide) (by decide) (by decide) (by decide) (by decide)
+
+/-- non-vacuity of `nextReader_over_limit_claimed`: `ReaderIdle`, `CountInv`, `WHealthy` and the header
+    hypotheses hold together for `witClaim64` -/
+example : ∃ c', nextReader witClaim64 = (.err .readLimit, c') ∧ c'.r.readErr = some .readLimit ∧
+      c'.w.wire = witClaim64.w.wire ++ closeFrameBytes witClaim64.w (closePayload 1009 []) :=
+  nextReader_over_limit_claimed witClaim64 witClaim64_idle (fun _ => rfl) ⟨rfl, rfl⟩ 0x82 0x7F [0, 0, 1, 0, 0, 0, 0, 0] [] []
+    ((headerErrors_nil_iff _ _ true _).mp (by decide)) (Or.inr (by decide)) (by decide) (by decide) witClaim64_pending
+    (by decide) (by decide) (by decide)
+
+/-- evaluated: the error is latched, nothing is left pending, and the masked 1009 close frame is the whole wire -/
+example : (nextReader witClaim64).2.r.readErr = some .readLimit ∧ (nextReader witClaim64).2.r.buf.pending = [] ∧
+    (nextReader witClaim64).2.w.wire = [0x88, 0x82, 1, 2, 3, 4, 3 ^^^ 1, 0xF1 ^^^ 2] := by decide
+
+/-- a SERVER reader with read limit 1000 in the middle of a fragmented message of which 800 bytes have
+    been counted; pending: a masked final continuation frame in the 16-bit length form
+    (80 fe 01 2c = FIN+continuation, MASK+126, length 300), its key 37 fa 21 3d and the first three
+    payload bytes: 800 + 300 > 1000 -/
+def witClaim16 : Conn :=
+  { w := newW true 4096 false false,
+    r := { isServer := true, nego := false, limit := 1000, length := 800, final := false,
+           msgReader := some 2, nextId := 3, hlog := [.pong [7]],
+           buf := { size := 4096, buf := [0x80, 0xFE, 0x01], t := { chunks := [[0x2C, 0x37, 0xfa], [0x21, 0x3d, 0x56, 0x98, 0x42]] }, total := 308 } } }
+
+def witClaim16_atBoundary : AtBoundary witClaim16 :=
+  ⟨rfl, rfl, ⟨by decide, by decide, by decide, (by intro e h; cases h)⟩, by decide⟩
+
+/-- non-vacuity of `limit_refuses_claimed`, instance 2: masked 16-bit length, running sum -/
+example : ∃ c', advanceFrame witClaim16 = (.error .readLimit, c') ∧ c'.r.buf.pending = [0x56, 0x98, 0x42] ∧ c'.r.hlog = witClaim16.r.hlog ∧
+      c'.w.wire = witClaim16.w.wire ++ closeFrameBytes witClaim16.w (closePayload 1009 []) ∧ c'.w.writeErr = some .closeSent :=
+  limit_refuses_claimed witClaim16 witClaim16_atBoundary ⟨rfl, rfl⟩ 0x80 0xFE [0x01, 0x2C] [0x37, 0xfa, 0x21, 0x3d] [0x56, 0x98, 0x42]
+    (by rw [← headerErrors_nil_iff]; decide) (by decide) (by decide) (by decide) (by decide)
+    (by decide) (by decide) (by decide) (by decide) (by decide)
+
+example : sumBase witClaim16 (parseHdr 0x80 0xFE) + (claimed (parseHdr 0x80 0xFE) [0x01, 0x2C] : Int) = 1100 := by decide
+
+/-- a client reader whose limit is the largest int64 (2^63 - 1), in the middle of a fragmented message
+    of which 2^62 bytes have been counted; pending: the 10-byte header of a non-final continuation frame
+    claiming 2^63 - 1 bytes (00 7f 7f ff ff ff ff ff ff ff) and one payload byte. The mathematical sum
+    2^62 + 2^63 - 1 is above the limit; the int64 sum in the Go code wraps to a negative number -/
+def witClaimWrap : Conn :=
+  { w := { newW false 4096 false false with keys := [1, 2, 3, 4] },
+    r := { isServer := false, nego := false, limit := 9223372036854775807, length := 4611686018427387904, final := false,
+           msgReader := some 2, nextId := 3,
+           buf := { size := 4096, buf := [0x00, 0x7F, 0x7F, 0xFF, 0xFF], t := { chunks := [[0xFF, 0xFF, 0xFF, 0xFF, 0xFF, 0x61]] }, total := 11 } } }
+
+def witClaimWrap_atBoundary : AtBoundary witClaimWrap :=
+  ⟨rfl, rfl, ⟨by decide, by decide, by decide, (by intro e h; cases h)⟩, by decide⟩
+
+/-- non-vacuity of `limit_refuses_claimed`, instance 3: the int64 sum wraps -/
+example : ∃ c', advanceFrame witClaimWrap = (.error .readLimit, c') ∧ c'.r.buf.pending = [0x61] ∧ c'.r.hlog = witClaimWrap.r.hlog ∧
+      c'.w.wire = witClaimWrap.w.wire ++ closeFrameBytes witClaimWrap.w (closePayload 1009 []) ∧ c'.w.writeErr = some .closeSent :=
+  limit_refuses_claimed witClaimWrap witClaimWrap_atBoundary ⟨rfl, rfl⟩ 0x00 0x7F [0x7F, 0xFF, 0xFF, 0xFF, 0xFF, 0xFF, 0xFF, 0xFF] [] [0x61]
+    (by rw [← headerErrors_nil_iff]; decide) (by decide) (by decide) (by decide) (by decide)
+    (by decide) (by decide) (by decide) (by decide) (by decide)
+
+/-- the claimed length is 2^63 - 1, the running sum 2^62, and their int64 sum is negative -/
+example : claimed (parseHdr 0x00 0x7F) [0x7F, 0xFF, 0xFF, 0xFF, 0xFF, 0xFF, 0xFF, 0xFF] = 2 ^ 63 - 1 ∧
+    witClaimWrap.r.length = 2 ^ 62 ∧
+    wrap64 (witClaimWrap.r.length + (2 ^ 63 - 1 : Nat)) < 0 := by decide
+
+/-- an idle client reader WITHOUT a read limit facing a text frame whose 64-bit length field is
+    ff 00 00 00 00 00 00 01 (top bit set), then two more bytes -/
+def witTopFF : Conn :=
+  { w := { newW false 4096 false false with keys := [1, 2, 3, 4] },
+    r := { isServer := false, nego := false, limit := 0,
+           buf := { size := 4096, buf := [0x81], t := { chunks := [[0x7F, 0xFF, 0, 0, 0], [0, 0, 0, 1, 0xAA, 0xBB]] }, total := 12 } } }
+
+/-- non-vacuity of `topbit_refused_claimed` -/
+example : ∃ c', advanceFrame witTopFF = (.error .readLimit, c') ∧ c'.r.buf.pending = [0xAA, 0xBB] ∧ c'.r.hlog = witTopFF.r.hlog ∧
+      c'.w.wire = witTopFF.w.wire ++ closeFrameBytes witTopFF.w (closePayload 1009 []) :=
+  topbit_refused_claimed witTopFF ⟨rfl, rfl, ⟨by decide, by decide, by decide, (by intro e h; cases h)⟩, by decide⟩ ⟨rfl, rfl⟩
+    0x81 0x7F [0xFF, 0, 0, 0, 0, 0, 0, 1] [0xAA, 0xBB]
+    (by rw [← headerErrors_nil_iff]; decide) (by decide) rfl (by decide) (by decide)
 
 end NonVacuity
 
